@@ -495,8 +495,10 @@ func (c *Context) onPing(message *messages.PingMessage) {
 
 func (c *Context) onWatch(_ *messages.WatchMessage) {
 	sender := c.envelop.Sender()
-	// 父节点不需要显式监听子节点，因为父节点会自动监听子节点
-	if sender.Equals(c.parent) {
+	// 父节点不需要显式监听子节点，因为父节点会自动监听子节点。
+	// 根 Actor 没有父节点：c.parent 为 nil 的 *Ref，装入接口后传给 Equals 会在 GetAddress 处解引用空指针，
+	// 该 panic 发生在系统消息处理中、不在行为恢复范围内，会使整个进程崩溃（任何 Actor 监听根 Actor 即可触发）
+	if c.parent != nil && sender.Equals(c.parent) {
 		c.Logger().Debug("parent does not need to watch child explicitly; this is handled by default", log.String("ref", c.ref.GetPath()), log.String("address", sender.GetAddress()), log.String("path", sender.GetPath()))
 		return
 	}
